@@ -344,7 +344,7 @@ def fam_sweep(tier):
     if tier == "quick":
         sizes = [15, 16, 17, 1023, 1024, 1025, 4079, 4080, 4081, 4095, 4096, 4097, 8192]
     else:
-        sizes = sorted(set(x for n in POW2 + CHUNKISH + [20480] for x in (n - 1, n, n + 1)))
+        sizes = sorted(set([x for n in (16, 64, 256, 1024, 4096, 8192, 4096 - 16, 8192 - 16) for x in (n - 1, n, n + 1)] + [8, 32, 128, 512, 2048, 20480]))
     out = []
     for L in sizes:
         h = [("a", "new_from_fd_gen", [L, 0, 0]), ("a", "len", []),
